@@ -64,6 +64,8 @@ def sfd(fmt="s16"):
 
 
 PICFD = {"A": "x:pic.A." + PATTR, "B": "x:pic.B." + PATTR}
+PICIN = "inpic {p} {id} pts_sys={t} pts_prog={t} duration=1080000"
+SNDIN = "insound {p} {id} 1024 pts_sys={t} pts_prog={t} duration=576000"
 
 TYPES = [
     # --- in the shared registry (harness/pipe_registry.c)
@@ -113,20 +115,20 @@ TYPES = [
     typ("rtp_mpeg4", fd={"A": "baac.sound.A", "B": "baac.sound.B"}),
     typ("m3u_reader"),
     typ("aes_decrypt", "thru"),
-    typ("subpic_schedule", data=False, fd=PICFD),
+    typ("subpic_schedule", fd=PICFD, incmd=PICIN),
     # upipe_row_join is left out on purpose: its set_flow_def hands the caller's flow definition to
     # require_ubuf_mgr (which takes ownership): every set_flow_def ends in a use-after-free of the
     # caller's uref (AddressSanitizer) - a C01 matter, it would only drown this check's verdict
-    typ("row_split", data=False, fd=PICFD, alloc=["newf p0 row_split pic." + PATTR]),
-    typ("ntsc_prepend", data=False, fd=PICFD),
-    typ("separate_fields", data=False, fd=PICFD),
-    typ("crop", data=False, fd=PICFD),
-    typ("rtp_pcm_pack", data=False, fd=sfd("s32"), dies=False),
+    typ("row_split", fd=PICFD, incmd=PICIN, alloc=["newf p0 row_split pic." + PATTR]),
+    typ("ntsc_prepend", fd=PICFD, incmd=PICIN),
+    typ("separate_fields", fd=PICFD, incmd=PICIN),
+    typ("crop", fd=PICFD, incmd=PICIN),
+    typ("rtp_pcm_pack", fd=sfd("s32"), incmd=SNDIN, dies=False),
     typ("rtp_pcm_unpack", fd={"A": "x:block.s24be.sound.A. rate=48000 channels=2",
                               "B": "x:block.s24be.sound.B. rate=48000 channels=2"}, size=192, dies=False),
-    typ("audio_merge", data=False, fd=sfd(), alloc=["newf p0 audio_merge sound.s16." + SATTR]),
-    typ("audio_split", data=False, fd=sfd()),
-    typ("audiocont", data=False, fd=sfd("f32"), alloc=["newf p0 audiocont sound.f32." + SATTR]),
+    typ("audio_merge", fd=sfd(), incmd=SNDIN, alloc=["newf p0 audio_merge sound.s16." + SATTR]),
+    typ("audio_split", fd=sfd(), incmd=SNDIN),
+    typ("audiocont", fd=sfd("f32"), incmd=SNDIN, alloc=["newf p0 audiocont sound.f32." + SATTR]),
     # pictures on the selected input, one reference tick per picture (the output is the tick
     # with the picture attached; only the FORMAT of the input's flow definition is copied)
     typ("videocont", fd={"A": "x:pic.A. hsize=16 vsize=16 fps=25 pplanes=3", "B": "x:pic.B. hsize=32 vsize=32 fps=25 pplanes=3"},
@@ -136,7 +138,7 @@ TYPES = [
     typ("dejitter", "thru"),
     typ("sync", data=False, fd=PICFD),
     typ("block_to_sound", alloc=["newf p0 block_to_sound sound.s32." + SATTR], data=False),   # needs a sound ubuf_mgr
-    typ("audio_copy", data=False, fd=sfd(), alloc=["newf p0 audio_copy sound.s16." + SATTR], dies=False),
+    typ("audio_copy", fd=sfd(), incmd=SNDIN, alloc=["newf p0 audio_copy sound.s16." + SATTR], dies=False),
     typ("vblk", src=[M % "video_blank"], data=False, fd=PICFD, alloc=["newf p0 vblk pic." + PATTR], dies=False),
     typ("ablk", src=[M % "audio_blank"], data=False, fd=sfd(), alloc=["newf p0 ablk sound.s16." + SATTR]),
     typ("voidsrc", src=[M % "void_source"], data=False, env=PUMP, alloc=["newf p0 voidsrc void. duration=27000"]),
@@ -950,7 +952,8 @@ def replay(ctx, rp):
 # ------------------------------------------------------------------------ run
 NEG = [("no_reset_on_set_output", "FlowDefBeforeData"), ("no_reset_on_flow_change", "FlowDefBeforeData"),
        ("ignore_reject", "NoDataWhileRejected"), ("log_after_dead", "DeadLast"),
-       ("late_ready", "ReadyFirst"), ("dead_twice", "DeadOnce")]
+       ("late_ready", "ReadyFirst"), ("dead_twice", "DeadOnce"),
+       ("silent_flow_change", "FlowDefBeforeData")]
 ACTIONS = ["New", "SetFd", "OptFd", "In", "Out", "Policy", "Arm", "Rel", "End"]   # Plain only makes self-loops: guarded below
 
 
@@ -1053,7 +1056,11 @@ def run(ctx):
                     mism.append((len(x.lines), x, d))
         ctx.evaluations += ncmp
         stats[T["name"]] = {"class": T["cls"], "scripts": len(xs), "commands": sum(len(x.lines) for x in xs),
-                            "predicted_commands_compared": ncmp}
+                            "predicted_commands_compared": ncmp,
+                            "buffers_fed": sum(1 for x in xs if x.events for e in x.events if e["e"] == "In"),
+                            "buffers_delivered": sum(1 for x in xs if x.events for e in x.events if e["e"] == "SinkIn"),
+                            "delivered_with_flow_tag": sum(1 for x in xs if x.events for e in x.events
+                                                           if e["e"] == "SinkIn" and e["fl"] and e["now"])}
         all_execs += xs
     ctx.extra["per_type"] = stats
     lap("harness")
